@@ -112,6 +112,69 @@ def check_algebra(ctx, R="C16.algebra"):
             ctx.note(f"Region.difference has no shortcut for {g} (falls to the generic DifferenceRegion; not a violation)")
 
 
+
+def check_planar_metric(ctx, R="C16.z"):
+    """part of C16.z: Vector.distanceTo is the 3-D metric; in a planar region (a disc, a sector) the distance of a probe point from
+    the region's centre may stand for the planar distance only where the probe is known to lie in the region's plane"""
+    model = ctx.model
+    n = 0
+    for cname in ("CircularRegion", "SectorRegion"):
+        ci = model.cls(RG, cname)
+        for mn, fn in ci.methods.items():
+            if len(fn.args.args) < 2:
+                continue
+            ptp = fn.args.args[1].arg
+            for c in walk_local(fn):
+                if not (isinstance(c, ast.Call) and isinstance(c.func, ast.Attribute) and c.func.attr == "distanceTo" and len(c.args) == 1):
+                    continue
+                pair = {unparse(c.func.value), unparse(c.args[0])}
+                if pair != {ptp, "self.center"}:
+                    continue
+                n += 1
+                if lib.holds(lib.guard_tests(c, fn), f"{ptp}.z == self.z", f"{ptp}.z == self.center.z"):
+                    ctx.ok(R, c, f"{cname}.{mn}: the 3-D distance from the centre is used only for probes in the region's plane")
+                else:
+                    ctx.finding(
+                        R,
+                        c,
+                        f"{cname}.{mn}: 3-D centre distance used as planar distance",
+                        f"{cname}.{mn} uses `{unparse(c)}` (the 3-D distance, which includes the height difference) as the planar distance from the centre without `{ptp}.z == self.z` on the path: "
+                        f"for a probe outside the region's plane the height difference is counted twice (or a point above the disc gets a spurious planar term)",
+                    )
+    ctx.floor(R, n, 3, "centre-distance computations of the planar round regions")
+
+
+
+EXACT_FOOTPRINTS = {"_boundingPolygon": "the exact projection of the mesh onto the plane", "polygons": "the region's own polygons", "polygon": "the region's own polygon"}
+
+
+def check_footprint_containment(ctx, R="C16.units"):
+    """part of C16.units: what a footprint's region-in-region containment compares is the contained region's exact planar extent"""
+    model = ctx.model
+    fn = model.func(RG, "PolygonalFootprintRegion.containsRegionInner")
+    regp = fn.args.args[1].arg
+    n = 0
+    for r in lib.returns_of(fn):
+        v = lib.role_expr(fn, r.value) if r.value is not None else None
+        if not (isinstance(v, ast.Call) and isinstance(v.func, ast.Attribute) and v.func.attr in ("contains", "covers", "contains_properly") and len(v.args) == 1):
+            continue
+        a = v.args[0]
+        if not (isinstance(a, ast.Attribute) and unparse(a.value) == regp):
+            continue
+        n += 1
+        if a.attr in EXACT_FOOTPRINTS:
+            ctx.ok(R, r, f"containsRegionInner compares `{regp}.{a.attr}`: {EXACT_FOOTPRINTS[a.attr]}")
+        else:
+            ctx.finding(
+                R,
+                r,
+                f"footprint containment of {regp}.{a.attr}",
+                f"PolygonalFootprintRegion.containsRegionInner answers with `{norm_text(v, 60)}`: `{regp}.{a.attr}` is not the region's exact planar extent (allowed: {sorted(EXACT_FOOTPRINTS)}); "
+                f"a hull or box around it sticks out of the footprint where the region itself does not, so a contained region is reported as not contained",
+            )
+    ctx.floor(R, n, 2, "containment answers of PolygonalFootprintRegion.containsRegionInner")
+
+
 def check_units(ctx, R="C16.units"):
     ctx.rule(
         R,
@@ -197,8 +260,10 @@ def check(ctx):
     ctx.run(names)
     ctx.run(operand)
     ctx.run(rk.check_z, "C16.z")
+    ctx.run(check_planar_metric)
     ctx.run(check_rebuild)
     ctx.run(rk.check_argmin, "C16.argmin")
     ctx.run(check_algebra)
     ctx.run(check_units)
+    ctx.run(check_footprint_containment)
     ctx.run(check_cache, R="C16.cache")
